@@ -24,6 +24,12 @@ class Obligation:
         return f"{self.rule}|{self.construct}"
 
 
+# Measured and rejected: also treating a function as "rewritten" when >= 12 of its statements / tests differ from the confirmed version removed 5
+# more false alarms of neutral round 5 but turned 12 more seeded defects into "undecided"; the distance is still computed (normalize.py) and shown
+# in the evidence, the guard itself is off.
+REWRITE_DISTANCE = 10 ** 6
+
+
 class Ctx:
     def __init__(self, repo: Repo, prop: str, tier: str = "quick") -> None:
         self.repo = repo
@@ -37,8 +43,10 @@ class Ctx:
         self.current_rule = "?"
 
     # -- recording
-    def check(self, cond: bool, construct: str, detail: str = "", rule: str | None = None) -> bool:
-        if not cond:
+    def check(self, cond: bool, construct: str, detail: str = "", rule: str | None = None, fact: bool = False) -> bool:
+        """fact=True: the failure is a construct the rule extracted and that contradicts it (not a pattern it failed to find): reported even in a
+        function rewritten with unfamiliar syntax"""
+        if not cond and not fact:
             why = self._novel(construct, rule or self.current_rule)
             if why:
                 # the function was rewritten with constructs its confirmed version does not use: what the rule does not find there is not decided
@@ -50,23 +58,31 @@ class Ctx:
         return bool(cond)
 
     def _novel(self, construct: str, rule: str) -> str | None:
-        novel = getattr(self.repo, "novel_syntax", None)
-        if not novel or rule.split(".")[-1] in ("RM", "RU", "RB"):
+        novel = getattr(self.repo, "novel_syntax", None) or {}
+        dist = getattr(self.repo, "rewrite_distance", None) or {}
+        if (not novel and not dist) or rule.split(".")[-1] in ("RM", "RU", "RB"):
             return None  # the shared effect / def-use rules report facts they extracted, not patterns they missed
         import re as _re
 
         words = set(_re.findall(r"[A-Za-z_][A-Za-z_0-9]*(?:\.[A-Za-z_][A-Za-z_0-9]*)?", construct))
-        for q, kinds in novel.items():
+
+        def named(q: str) -> bool:
             bare = q.split(".")[-1]
-            if q in words or (bare in words and not bare.startswith("__")) or any(w.endswith("." + bare) for w in words):
+            return q in words or (bare in words and not bare.startswith("__")) or any(w.endswith("." + bare) for w in words)
+
+        for q, kinds in novel.items():
+            if named(q):
                 return f"`{q}` now uses {', '.join(sorted(kinds))}, which its confirmed version does not; the rule's extractor does not model that spelling"
+        for q, d in dist.items():
+            if d >= REWRITE_DISTANCE and named(q):
+                return f"`{q}` has been rewritten ({d} of its statements and tests differ from the confirmed version); the rule's extractor was written against that version"
         return None
 
     def ok(self, construct: str, detail: str = "", rule: str | None = None) -> None:
         self.check(True, construct, detail, rule)
 
-    def fail(self, construct: str, detail: str, rule: str | None = None) -> None:
-        self.check(False, construct, detail, rule)
+    def fail(self, construct: str, detail: str, rule: str | None = None, fact: bool = False) -> None:
+        self.check(False, construct, detail, rule, fact)
 
     def count(self, key: str, n: int = 1) -> None:
         self.counts[key] = self.counts.get(key, 0) + n
